@@ -4,7 +4,7 @@ import itertools, math, random, copy
 import numpy as np
 from . import common
 from .common import rat, rats
-from .scheme_common import AXN, rand_grid, rand_density, loguni
+from .scheme_common import AXN, rand_grid, rand_density, loguni, delj_table
 
 FUNCS = {1: 'one_pop', 2: 'two_pops', 3: 'three_pops', 4: 'four_pops', 5: 'five_pops'}
 
@@ -47,7 +47,8 @@ def gen_case(rng, P, mode=None, n=None, kind=None, frozen_bias=False):
     theta0 = par(0.1, 5)
     case = {'P': P, 'n': n, 'grid_kind': rng.choice(['exponential', 'uniform', 'random']), 'grid_seed': rng.randrange(10 ** 6),
             'phi_seed': rng.randrange(10 ** 6), 'mode': mode, 'kind': kind, 'par': pars, 'theta0': theta0,
-            'frozen': frozen, 'nomut': nomut, 't0': rng.choice([0.0, 0.0, 0.3]), 'steps': rng.uniform(0.3, 4.5)}
+            'frozen': frozen, 'nomut': nomut, 't0': rng.choice([0.0, 0.0, 0.3]), 'steps': rng.uniform(0.3, 4.5),
+            'delj': rng.random() < 0.25}
     if kind == 'frozenmig' and P >= 2:
         k = rng.randrange(P)
         case['frozen'][k] = True
@@ -121,11 +122,23 @@ def run_case(case, tid, keep_out=False):
     callin = {'P': P, 'grids': [rats(xx)] * P, 'phi': rats(phi0.ravel()), 'T': rat(T), 't0': rat(t0),
               'par': [{'nu': _encf(p['nu']), 'gamma': _encf(p['gamma']), 'h': _encf(p['h']), 'beta': _encf(p['beta']),
                        'mig': [_encf(m) for m in p['mig']]} for p in case['par']],
-              'theta0': _encf(case['theta0']), 'frozen': list(case['frozen']), 'nomut': list(case['nomut']), 'mode': mode,
+              'theta0': _encf(case['theta0']), 'frozen': list(case['frozen']), 'nomut': list(case['nomut']), 'mode': mode, 'delj': bool(case.get('delj')),
               'func': FUNCS[P]}
     log.add('call', **{'in': callin})
 
+    delj_on = bool(case.get('delj'))
+    shape = [case['n']] * P
+    grids_f = [xx] * P
+
+    def const_par(k):
+        p = case['par'][k - 1]
+        return {'nu': p['nu']['c0'], 'gamma': p['gamma']['c0'], 'h': p['h']['c0'], 'beta': p['beta']['c0'], 'mig': [m['c0'] for m in p['mig']]}
+
+    def dj(k, par):
+        return {'deljtab': delj_table(grids_f, k, par, shape)} if delj_on else {}
     real_int_c, real_tri = Integration.int_c, Integration.tridiag
+    real_delj = Integration.use_delj_trick
+    Integration.use_delj_trick = delj_on
     real_inj = {d: getattr(Integration, '_inject_mutations_%dD' % d) for d in range(1, 6)}
 
     class IntC:
@@ -144,7 +157,7 @@ def run_case(case, tid, keep_out=False):
                     A, B, C, dt = a
                     out = f(phi, *a)
                     log.add('sweep', kind='precalc', k=k, a=rats(np.asarray(A).ravel()), b=rats(np.asarray(B).ravel()),
-                            c=rats(np.asarray(C).ravel()), dt=rat(dt), before=before, after=rats(np.asarray(out).ravel()))
+                            c=rats(np.asarray(C).ravel()), dt=rat(dt), before=before, after=rats(np.asarray(out).ravel()), **dj(k, const_par(k)))
                     return out
                 d = int(name[len('implicit_')])
                 k = AXN.index(name[-1]) + 1
@@ -161,7 +174,8 @@ def run_case(case, tid, keep_out=False):
                     mig = ms[:k - 1] + [0.0] + ms[k - 1:]
                 out = f(phi, *a)
                 log.add('sweep', kind='kernel', k=k, par={'nu': rat(nu), 'gamma': rat(gamma), 'h': rat(h), 'beta': rat(beta), 'mig': [rat(m) for m in mig]},
-                        dt=rat(dt), before=before, after=rats(np.asarray(out).ravel()))
+                        dt=rat(dt), before=before, after=rats(np.asarray(out).ravel()),
+                        **dj(k, {'nu': float(nu), 'gamma': float(gamma), 'h': float(h), 'beta': float(beta), 'mig': [float(m) for m in mig]}))
                 return out
             return wrapped
 
@@ -173,7 +187,8 @@ def run_case(case, tid, keep_out=False):
 
             def wrapped(a, b, c, r):
                 u = f(a, b, c, r)
-                log.add('sweep', kind='tridiag', k=1, a=rats(a), b=rats(b), c=rats(c), r=rats(r), before=log.ev[-1].get('after', []), after=rats(u))
+                log.add('sweep', kind='tridiag', k=1, a=rats(a), b=rats(b), c=rats(c), r=rats(r), before=log.ev[-1].get('after', []), after=rats(u),
+                        **dj(1, const_par(1)))
                 return u
             return wrapped
 
@@ -196,6 +211,7 @@ def run_case(case, tid, keep_out=False):
             log.add('raise', exc=type(ex).__name__)
     finally:
         Integration.int_c, Integration.tridiag = real_int_c, real_tri
+        Integration.use_delj_trick = real_delj
         for d in range(1, 6):
             setattr(Integration, '_inject_mutations_%dD' % d, real_inj[d])
     if keep_out:
@@ -233,6 +249,24 @@ def add_driver_traces(ctx, res, rng, dims, prop, frozen_bias=False):
     for P in dims:
         for r in range(n_per if P <= 3 else max(2, n_per // 3)):
             cases.append(gen_case(rng, P, frozen_bias=frozen_bias))
+    if prop == 'C04':
+        # a frozen population with migration must be rejected: every (P, frozen population, partner, direction)
+        for P in (2, 3, 4, 5):
+            for k in range(P):
+                for j in range(P):
+                    if j == k:
+                        continue
+                    for direction in (0, 1):
+                        c = gen_case(rng, P, mode='const', n=4, kind='frozenmig')
+                        c['frozen'] = [q == k for q in range(P)]
+                        c['nomut'] = [False] * P
+                        for p_ in c['par']:
+                            p_['mig'] = [{'c0': 0.0, 'c1': 0.0, 'const': True} for _ in range(P)]
+                        a, b = (k, j) if direction == 0 else (j, k)
+                        c['par'][a]['mig'][b] = {'c0': 1.5, 'c1': 0.0, 'const': True}
+                        c['steps'] = 0.4
+                        c['delj'] = False
+                        cases.append(c)
     traces = []
     for tid, case in enumerate(cases):
         traces.append(run_case(case, tid))
@@ -266,7 +300,7 @@ def add_driver_traces(ctx, res, rng, dims, prop, frozen_bias=False):
 def _count(cases):
     d = {}
     for c in cases:
-        k = '%s/%s/%s' % (FUNCS[c['P']], c['mode'], c['kind'])
+        k = '%s/%s/%s%s' % (FUNCS[c['P']], c['mode'], c['kind'], '/delj' if c.get('delj') else '')
         d[k] = d.get(k, 0) + 1
     return d
 
